@@ -509,10 +509,10 @@ CELL_STRS = [['str', s] for s in ('good', 'mua', 'noise', 'a b', ' a', 'a ', ' '
 FIELDS = ['id', 'g', 'q']
 
 
-def _tsv_structure(ctx, maxrows, exts, ffs):
+def _tsv_structure(ctx, nrows_list, exts, ffs):
     cells = {'absent': None, 'none': ['none'], 'int': ['int', 3], 'str': ['str', 'x']}
     pats = list(itertools.product(['absent', 'none', 'int'], repeat=3))
-    for nrows in range(1, maxrows + 1):
+    for nrows in nrows_list:
         for combo in itertools.product(pats, repeat=nrows):
             rows = []
             for ri, pat in enumerate(combo):
@@ -602,7 +602,7 @@ def enumerate_cases(ctx):
                 if layout in ('strided', 'rev', 'bcast') and len(shape) == 0:
                     continue
                 for fill in (0, 1):
-                    if quick and fill == 0 and layout in ('view', 'rev') and len(shape) != 1:
+                    if quick and fill == 0 and layout not in ('C', 'strided'):
                         continue
                     ctx.run('json', {'entries': [[['s', 'arr'], ['nd', dt, shape, layout, fill]]]})
     ctx.scope('save_json/load_json arrays in nested positions: array inside a list, inside a nested dict, inside a list inside a dict, two arrays side by side')
@@ -633,12 +633,13 @@ def enumerate_cases(ctx):
     # ---- TSV / CSV tables ------------------------------------------------------------------------------------
     exts = ('tsv', 'csv')
     ffs = (None, 'id', 'g', 'q', 'zz')
-    mr = 2
-    ctx.scope('write_tsv/read_tsv structure: every row list of 1..%d rows over fields %s where each field is absent / None / an int, with >= 2 columns overall '
-              '(includes fully empty rows), x {tsv, csv} x first_field in %s%s' % (mr, FIELDS, list(ffs), '' if quick else '; 3-row lists x first_field in {None, q}'))
-    _tsv_structure(ctx, mr, exts, ffs)
+    ctx.scope('write_tsv/read_tsv structure: every row list of 1..2 rows over fields %s where each field is absent / None / an int, with >= 2 columns overall '
+              '(includes fully empty rows), x {tsv, csv} x first_field in %s (quick: 2-row lists with first_field in {None, q} only)%s'
+              % (FIELDS, list(ffs), '' if quick else '; every 3-row list x first_field in {None, q}'))
+    _tsv_structure(ctx, [1], exts, ffs)
+    _tsv_structure(ctx, [2], exts, (None, 'q') if quick else ffs)
     if not quick:
-        _tsv_structure(ctx, 3, exts, (None, 'q'))
+        _tsv_structure(ctx, [3], exts, (None, 'q'))
     alpha, L = (['a', '1', ',', '\t', '"', ' '], 3) if quick else (['a', '1', ',', '\t', '"', ' ', "'", '.', '-', 'e'], 3)
     strs = list(non_numeric_strings(alpha, L))
     if not quick:
